@@ -13,6 +13,9 @@
       with every entry removed ([get_block_name_transparent]), and coherence is preserved by it.  The entry a
       node creates for ITSELF during its own expansion is the one place where coherence breaks
       ([self_query_breaks_coherence]: .b>.-e>.-x).
+      WALK LEVEL ([transform_tree_transparent]): when the real walk hands only coherent paths to the children of
+      every node ([clean_walk]; in particular when no node queries its own block: [self_none_coherent]) it returns
+      exactly the tree of the cache-free walk [transform_tree_nc].
    3. Short algebraic facts: [unique] is idempotent and has no duplicates; re_element / re_modifier consume at
       least two characters and never more than the string; a class name that matches neither regex is kept
       as it is ([esn_class_plain]); BEM leaves a node without class names untouched ([bem_no_class]). *)
@@ -529,4 +532,192 @@ Proof.
   assert (LEN : length (firstn (S nf + nr) s1) = S nf + nr) by (apply firstn_length_le; lia).
   split; [lia|]. split; [|split; [rewrite LEN; reflexivity|lia]].
   intros E. rewrite E in LEN. cbn [length] in LEN. lia.
+Qed.
+
+(* ---------------------------------------------------------------- 4. cache transparency for the whole walk *)
+(* the CACHE-FREE definition of the transform walk: every transform() call sees its ancestors without any
+   cache entry (get_block_name recomputes the data of each ancestor from its current class) *)
+Fixpoint transform_tree_nc (cfg : mconfig) (parent_name : option (option str)) (top : bool) (pending : bool)
+         (anc : list pnode) (n : anode) {struct n} : res (anode * bool * list pnode) :=
+  match n with
+  | ANode nm v rp at_ ch sc =>
+      let hit := pending && is_input_name nm in
+      let n0 := if hit then ANode nm v rp (drop_empty_named s_id at_) ch sc else n in
+      let* (n1, found, path) := transform_node cfg parent_name top (uncached anc) n0 in
+      let pending1 := (pending && negb hit) || found in
+      match n1 with
+      | ANode nm1 v1 rp1 at1 _ sc1 =>
+          let* (ch', pending2, path2) :=
+            (fix go (l : list anode) (pd : bool) (pth : list pnode) : res (list anode * bool * list pnode) :=
+               match l with
+               | [] => Ok ([], pd, pth)
+               | c :: r =>
+                   let* (c', pd1, pth1) := transform_tree_nc cfg (Some nm1) false pd pth c in
+                   let* (r', pd2, pth2) := go r pd1 pth1 in
+                   Ok (c' :: r', pd2, pth2)
+               end) ch pending1 path in
+          Ok (ANode nm1 v1 rp1 at1 ch' sc1, pending2, firstn (length anc) path2)
+      end
+  end.
+
+(* the run of the real walk hands only coherent paths to the children of every node.  This is the case in
+   particular when no node queries its own block: its own entry is then absent ([self_none_coherent]). *)
+Fixpoint clean_walk (cfg : mconfig) (parent_name : option (option str)) (top : bool) (pending : bool)
+         (anc : list pnode) (n : anode) {struct n} : Prop :=
+  match n with
+  | ANode nm v rp at_ ch sc =>
+      let hit := pending && is_input_name nm in
+      let n0 := if hit then ANode nm v rp (drop_empty_named s_id at_) ch sc else n in
+      match transform_node cfg parent_name top anc n0 with
+      | Ok (n1, found, path) =>
+          Forall coherent path /\
+          (fix kids (l : list anode) (pd : bool) (pth : list pnode) : Prop :=
+             match l with
+             | [] => True
+             | c :: r =>
+                 clean_walk cfg (Some (an_name n1)) false pd pth c /\
+                 match transform_tree cfg (Some (an_name n1)) false pd pth c with
+                 | Ok (_, pd1, pth1) => kids r pd1 pth1
+                 | _ => True
+                 end
+             end) ch ((pending && negb hit) || found) path
+      | _ => True
+      end
+  end.
+
+(* cached run vs cache-free run: same attributes on the path, the cached one coherent *)
+Definition Inv (p p' : list pnode) : Prop := same_attrs p p' /\ Forall coherent p.
+
+Lemma Inv_rel : forall p p', Inv p p' -> cache_rel p (uncached p').
+Proof.
+  intros p p' [HS HC]. split; [|split; [exact HC|]].
+  - unfold same_attrs, uncached in *. rewrite map_map. exact HS.
+  - unfold uncached. apply Forall_forall. intros x Hx. apply in_map_iff in Hx. destruct Hx as [y [<- _]]. exact I.
+Qed.
+
+Lemma uncached_length : forall p, length (uncached p) = length p.
+Proof. intros. apply map_length. Qed.
+
+Lemma transform_node_Inv : forall cfg pn top anc anc' n n1 found path,
+  Inv anc anc' -> transform_node cfg pn top anc n = Ok (n1, found, path) -> Forall coherent path ->
+  exists path', transform_node cfg pn top (uncached anc') n = Ok (n1, found, path') /\ Inv path path'.
+Proof.
+  intros cfg pn top anc anc' n n1 found path HI E HC. unfold transform_node in *.
+  destruct (transform_node_pre cfg pn top n) as [m fnd]. destruct (mc_bem cfg).
+  - destruct (bem_R (bem_cfg_of cfg) anc (uncached anc') m (Inv_rel _ _ HI)) as [n' [p1 [p2 [E1 [E2 [_ [_ HS]]]]]]].
+    rewrite E1 in E. cbn [bind] in E. inversion E; subst. rewrite E2. cbn [bind].
+    eexists. split; [reflexivity|]. split; assumption.
+  - inversion E; subst. eexists. split; [reflexivity|]. split; [|exact HC].
+    destruct HI as [HS _]. unfold same_attrs, uncached in *. rewrite !map_app, map_map, HS. reflexivity.
+Qed.
+
+Lemma Inv_firstn : forall p p' k k', Inv p p' -> k = k' -> Inv (firstn k p) (firstn k' p').
+Proof.
+  intros p p' k k' [HS HC] <-. split; [|apply Forall_firstn; exact HC].
+  unfold same_attrs in *. rewrite !map_firstn, HS. reflexivity.
+Qed.
+
+(* WALK-LEVEL CACHE TRANSPARENCY: when the real walk hands only coherent paths down (no node is seen by its
+   descendants in a state other than its final one), it returns exactly the tree of the cache-free walk *)
+Theorem transform_tree_transparent : forall n cfg pn top pd anc anc',
+  Inv anc anc' -> clean_walk cfg pn top pd anc n ->
+  exists n' b p p',
+    transform_tree cfg pn top pd anc n = Ok (n', b, p) /\
+    transform_tree_nc cfg pn top pd anc' n = Ok (n', b, p') /\ Inv p p'.
+Proof.
+  apply (anode_ind2 (fun n => forall cfg pn top pd anc anc',
+    Inv anc anc' -> clean_walk cfg pn top pd anc n ->
+    exists n' b p p',
+      transform_tree cfg pn top pd anc n = Ok (n', b, p) /\
+      transform_tree_nc cfg pn top pd anc' n = Ok (n', b, p') /\ Inv p p')).
+  intros nm v rp at_ ch sc HF cfg pn top pd anc anc' HI HCW.
+  cbn [transform_tree transform_tree_nc clean_walk] in *.
+  match type of HCW with match transform_node ?c ?p ?t ?a ?x with _ => _ end =>
+    destruct (transform_node_ok c p t a x) as [[[n1 found] path] E]; rewrite E in HCW |- *; cbn [bind] end.
+  destruct HCW as [HC HK].
+  destruct (transform_node_Inv _ _ _ _ _ _ _ _ _ HI E HC) as [path' [E' HI1]].
+  rewrite E'. cbn [bind].
+  destruct n1 as [nm1 v1 rp1 at1 ch1 sc1]. cbn [an_name] in HK.
+  match goal with |- exists _ _ _ _, bind (?go ch ?pd0 path) _ = _ /\ bind (?go' ch ?pd0 path') _ = _ /\ _ =>
+    set (G := go); set (G' := go'); generalize dependent pd0 end.
+  intros pd1 HK.
+  assert (HG : forall l pd2 pth pth', Forall (fun n => forall cfg pn top pd anc anc',
+                 Inv anc anc' -> clean_walk cfg pn top pd anc n ->
+                 exists n' b p p', transform_tree cfg pn top pd anc n = Ok (n', b, p) /\
+                   transform_tree_nc cfg pn top pd anc' n = Ok (n', b, p') /\ Inv p p') l ->
+               Inv pth pth' ->
+               (fix kids (l : list anode) (pd : bool) (pth : list pnode) : Prop :=
+                  match l with
+                  | [] => True
+                  | c :: r =>
+                      clean_walk cfg (Some nm1) false pd pth c /\
+                      match transform_tree cfg (Some nm1) false pd pth c with
+                      | Ok (_, pd1, pth1) => kids r pd1 pth1
+                      | _ => True
+                      end
+                  end) l pd2 pth ->
+               exists l' b p p', G l pd2 pth = Ok (l', b, p) /\ G' l pd2 pth' = Ok (l', b, p') /\ Inv p p').
+  { clear. induction l as [|c r IH]; intros pd2 pth pth' HF HI HK.
+    - exists [], pd2, pth, pth'. repeat split; try reflexivity; apply HI.
+    - inversion HF as [|? ? Hc Hr]; subst. destruct HK as [HKc HKr].
+      destruct (Hc cfg (Some nm1) false pd2 pth pth' HI HKc) as [c' [bc [pc [pc' [Ec [Ec' HIc]]]]]].
+      rewrite Ec in HKr. cbn [G G']. rewrite Ec, Ec'. cbn [bind]. fold G. fold G'.
+      destruct (IH bc pc pc' Hr HIc HKr) as [r' [br [pr [pr' [Er [Er' HIr]]]]]].
+      rewrite Er, Er'. cbn [bind]. exists (c' :: r'), br, pr, pr'. repeat split; try reflexivity; apply HIr. }
+  destruct (HG ch pd1 path path' HF HI1 HK) as [ch' [b2 [p2 [p2' [EG [EG' HI2]]]]]].
+  rewrite EG, EG'. cbn [bind]. eexists _, _, _, _. split; [reflexivity|]. split; [reflexivity|].
+  apply Inv_firstn; [exact HI2|]. destruct HI as [HS _]. apply same_attrs_length. exact HS.
+Qed.
+
+(* the sufficient condition: a bem() call on coherent ancestors that leaves no entry for the node itself
+   (the node did not query its own block) returns a coherent path *)
+Theorem self_none_coherent : forall cfg anc n n' path,
+  Forall coherent anc -> bem cfg anc n = Ok (n', path) ->
+  (forall p, nth_error path (length anc) = Some p -> pn_cache p = None) ->
+  Forall coherent path.
+Proof.
+  intros cfg anc n n' path HC E HN.
+  destruct (bem_R cfg anc (uncached anc) n (R_uncached anc HC)) as [m [p1 [p2 [E1 [_ [[_ [HC1 _]] [HA _]]]]]]].
+  rewrite E in E1. inversion E1; subst m p1. clear E1.
+  unfold bem in E. destruct (expand_class_names n) as [[n1 data]| | |]; cbn [bind] in E; try discriminate.
+  destruct (esn_path_shape _ _ _ _ _ _ E) as [path1 [sc [E1 EP]]]. subst path.
+  assert (L : length (firstn (length anc) path1) = length anc).
+  { apply firstn_length_le.
+    assert (HP : cache_rel (anc ++ [mkP (an_attrs n1) None]) (anc ++ [mkP (an_attrs n1) None])).
+    { assert (HF : Forall coherent (anc ++ [mkP (an_attrs n1) None])).
+      { apply Forall_app. split; [exact HC|]. constructor; [exact I|constructor]. }
+      split; [reflexivity|split; exact HF]. }
+    destruct (esn_loop_R cfg (bd_class_names data) _ _ HP) as [_ [_ HS]].
+    rewrite <- E1 in HS. rewrite (same_attrs_length _ _ HS), app_length. cbn [length]. lia. }
+  apply Forall_app. split.
+  - rewrite firstn_app in HC1. apply Forall_app in HC1. destruct HC1 as [HC1 _].
+    rewrite firstn_firstn, Nat.min_id in HC1. exact HC1.
+  - constructor; [|constructor].
+    specialize (HN (mkP (an_attrs n') sc)).
+    rewrite nth_error_app2 in HN by lia. rewrite L, Nat.sub_diag in HN.
+    specialize (HN eq_refl). cbn in HN. subst sc. exact I.
+Qed.
+
+(* non-vacuity: .b>.--e (prefix depth 2: the element asks its parent, nobody queries itself) is a clean walk, and its
+   result is b__e; .b>.-e>.-x is NOT clean (the middle node queries itself, see self_query_breaks_coherence) *)
+Example clean_walk_nonvacuous :
+  let cfg := mkMConfig [104;116;109;108]%N [] [] WNone None None false None [] false false true [95;95]%N [95]%N None in
+  let tree := ANode None None None (bem_cls [98]%N) [ANode None None None (bem_cls [45;45;101]%N) [] false] false in
+  clean_walk cfg None true false [] tree /\
+  exists a b c d p, transform_tree cfg None true false [] tree =
+    Ok (ANode a b c d [ANode a b c (bem_cls [98;95;95;101]%N) [] false] false, false, p).
+Proof.
+  cbv zeta. split.
+  - vm_compute. repeat (split || constructor).
+  - do 5 eexists. vm_compute. reflexivity.
+Qed.
+
+Example unclean_walk :
+  let cfg := mkMConfig [104;116;109;108]%N [] [] WNone None None false None [] false false true [95;95]%N [95]%N None in
+  let tree := ANode None None None (bem_cls [98]%N)
+                [ANode None None None (bem_cls [45;101]%N) [ANode None None None (bem_cls [45;120]%N) [] false] false] false in
+  ~ clean_walk cfg None true false [] tree.
+Proof.
+  cbv zeta. vm_compute. intros [_ [[H _] _]].
+  inversion H as [|? ? _ H2]; subst. inversion H2 as [|? ? H3 _]; subst. discriminate.
 Qed.
